@@ -80,6 +80,11 @@ def nativeOf (raced : List Nat) (s : State) (e : Ev) (s' : State) : List String 
     | none => []
   | .current t => lib t
   | .exit t _ => lib t
+  | .tlsFail _ _ _ => ["kcfail"]
+  | .currentFail _ =>     -- the read-back `p_uthread_get_local` reaches `pthread_getspecific` only if it could make the native key
+    match (s.key 0).published with
+    | some n => ["gs" ++ sh n]
+    | none => []
   | _ => []
 
 inductive Res
@@ -136,6 +141,7 @@ def fmtR (kind : String) (ret : List Int) : String :=
   | "noexit", _ => "noexit"
   | "blocked", _ => "blocked"
   | "null", _ => "NULL"
+  | "ok", _ => "ok"
   | "none", [] => "-"
   | _, _ => "?"
 
@@ -283,7 +289,26 @@ def step (s : St) (toks : List String) : IO (St × Bool) := do
         match k.toNat? with
         | some k => fin (needKey m a k ++ [.getLocal a k]) "value"
         | _ => bad
+      | ["set", k, v, "fail"] =>
+        -- the lazy `pthread_key_create` fails: nothing is stored, no notifier
+        match k.toNat?, v.toNat? with
+        | some k, some _ => if (m.key k).wrapperFreed then bad else fin [.tlsFail a k false] "none"
+        | _, _ => bad
+      | ["replace", k, v, "fail"] =>
+        match k.toNat?, v.toNat? with
+        | some k, some _ => if (m.key k).wrapperFreed then bad else fin [.tlsFail a k false] "none"
+        | _, _ => bad
+      | ["get", k, "fail"] =>
+        match k.toNat? with
+        | some k => if (m.key k).wrapperFreed then bad else fin [.tlsFail a k true] "value"
+        | _ => bad
       | ["current"] => fin (needKey m a 0 ++ [.current a]) "current"
+      | ["current", f] =>
+        -- `p_uthread_current` with the next 2 / 3 `pthread_key_create` calls failing: the fresh handle cannot be stored (NULL);
+        -- with 2 the read-back's own attempt makes the native key
+        if (f ≠ "fail2" ∧ f ≠ "fail3") ∨ (m.key 0).published.isSome ∨ (m.key 0).wrapperFreed ∨ s.pend.any (·.k = 0) then bad
+        else if f = "fail2" then fin [.keyCreate a 0, .keyCas a 0, .currentFail a] "null" (status := "kcfail,kcfail")
+        else fin [.currentFail a] "null" (status := "kcfail,kcfail,kcfail")
       | ["exit", c] =>
         match c.toInt? with
         | some c =>
@@ -340,6 +365,9 @@ def step (s : St) (toks : List String) : IO (St × Bool) := do
              ∨ (m.thr x.thread).phase = .ended then bad
           else idle "none"
         | _, _ => bad
+      | ["misc"] =>
+        -- `p_uthread_ideal_count` (≥ 1) / `p_uthread_yield` / `p_uthread_current_id`: no handle, reference or TLS state is involved
+        if ¬ canAct m a then bad else idle "ok"
       | ["keynew", n] =>
         if n ≠ "n" ∧ n ≠ "x" then bad else fin [.localNew a (n = "n")] "keynew"
       | ["keyfree", k] =>
